@@ -67,8 +67,9 @@ type phaseSpec struct {
 
 // trigSpec: how the harness paces an externally scheduled writer.
 type trigSpec struct {
-	WithholdUntil int `json:"withhold_until"` // no trigger before this many enqueuing calls returned (-1: never trigger)
-	EveryUs       int `json:"every_us"`       // then: one TriggerWriter() per this many microseconds (0: back-to-back with Gosched)
+	WithholdUntil int  `json:"withhold_until"` // no trigger before this many enqueuing calls returned (-1: never trigger)
+	EveryUs       int  `json:"every_us"`
+	AfterAll      bool `json:"after_all,omitempty"` // with WithholdUntil -1: trigger once all producers have finished, before Shutdown       // then: one TriggerWriter() per this many microseconds (0: back-to-back with Gosched)
 }
 
 // holdSpec: the adapter blocks inside Write at these Write-call indexes until every
@@ -224,6 +225,14 @@ func genScenario(cfg vlib.Cfg, n int, build string, family string) scenario {
 		s.Sched = r.Bool()
 		s.Trig = trigSpec{WithholdUntil: vlib.Pick(r, -1, 0), EveryUs: vlib.Pick(r, 0, 100)}
 		nph = r.Range(1, 3)
+	case "twin":
+		// one goroutine (or few), everything queued before the writer is triggered:
+		// what was logged back to back is back to back in the writer's batch
+		s.Producers = vlib.Pick(r, 1, 1, 1, 2, 3)
+		s.Sched = true
+		s.Trig = trigSpec{WithholdUntil: -1, AfterAll: true}
+		nph = r.Range(1, 2)
+		total = r.Range(60, 700)
 	case "squeeze":
 		// buffer as full as possible when Shutdown is called, writer squeezed for CPU
 		s.Sched = true
@@ -244,6 +253,9 @@ func genScenario(cfg vlib.Cfg, n int, build string, family string) scenario {
 
 	s.Tracers = r.Chance(2, 3)
 	s.Dense = r.Chance(1, 2)
+	if s.Family == "twin" {
+		s.Tracers = true
+	}
 
 	// initial configuration through the flags
 	if r.Chance(1, 4) {
@@ -279,7 +291,10 @@ func genScenario(cfg vlib.Cfg, n int, build string, family string) scenario {
 			left = 0
 		}
 		ph := phaseSpec{Cfg: randCfg(r, p == 0 && lowFirst), Ops: splitOps(r, share, s.Producers)}
-		if !(p == 0 && lowFirst) && r.Chance(1, 4) {
+		if s.Family == "twin" && r.Chance(3, 4) {
+			ph.Cfg.Global = 1 // tracers exist only where trace level is in force
+		}
+		if s.Family != "twin" && !(p == 0 && lowFirst) && r.Chance(1, 4) {
 			f := &flipSpec{}
 			switch r.Intn(3) {
 			case 0:
@@ -301,7 +316,7 @@ func genScenario(cfg vlib.Cfg, n int, build string, family string) scenario {
 	tot := s.totalOps()
 	s.Shutdown = "end"
 	switch s.Family {
-	case "squeeze":
+	case "squeeze", "twin":
 		s.Shutdown = "end"
 	case "small":
 		if r.Chance(1, 2) {
